@@ -52,7 +52,7 @@ fn f32txt(v: f32) -> String {
 }
 
 fn node(depth: u32) -> BoxedStrategy<N> {
-    let leaf = prop_oneof![6 => (0u8..5, crate::gen::nice(20), crate::gen::nice_pos(8)).prop_map(|(k, a, b)| N::Shape(k, a, b)), 2 => (-3..4i32).prop_map(N::Acc)];
+    let leaf = prop_oneof![6 => (0u8..6, crate::gen::nice(20), crate::gen::nice_pos(8)).prop_map(|(k, a, b)| N::Shape(k, a, b)), 2 => (-3..4i32).prop_map(N::Acc)];
     leaf.prop_recursive(depth, 30, 4, |inner| {
         let form = prop_oneof![
             3 => (0u8..6, prop::option::of((prop_oneof![Just(0.0f32), Just(1.0), Just(-2.0), Just(0.5), Just(2.25)], prop_oneof![Just(1.0f32), Just(-1.0), Just(0.5), Just(-1.5), Just(3.0), Just(0.0)]))).prop_map(|(n, lv)| LoopForm::Count(n, lv)),
@@ -67,7 +67,7 @@ fn node(depth: u32) -> BoxedStrategy<N> {
             2 => (vec(prop_oneof![Just("1"), Just("2"), Just("5"), Just("-3"), Just("0.5"), Just("10")], 1..5), any::<bool>(), vec(inner.clone(), 1..4)).prop_map(|(items, idx, b)| N::For(0, items.into_iter().map(|s| s.to_string()).collect(), idx, b)),
             2 => (any::<bool>(), 0u8..7, vec(inner.clone(), 1..4)).prop_map(|(t, f, b)| N::If(t, f, b)),
             1 => (2u8..6).prop_map(|n| N::UseChain(0, n)),
-            1 => vec(prop_oneof![Just("1"), Just("'two'"), Just("3.5"), Just("'x'"), Just("-4"), Just("'de luxe'")], 1..5).prop_map(|items| N::ForMixed(0, items.into_iter().map(|s| s.to_string()).collect())),
+            1 => vec(prop_oneof![Just("1"), Just("'two'"), Just("3.5"), Just("'x'"), Just("-4"), Just("'de luxe'"), Just("''")], 1..5).prop_map(|items| N::ForMixed(0, items.into_iter().map(|s| s.to_string()).collect())),
             1 => vec(inner.clone(), 1..4).prop_map(N::Group),
         ]
     })
@@ -126,6 +126,11 @@ fn render(prog: &[N], unroll: bool, vars: &mut Vec<String>, out: &mut Vec<X>) {
                         let idx = v.as_ref().map(|n| format!("{{{{floor(${{{n}}} * 4)}}}}")).unwrap_or("0".into());
                         out.push(X::El(XEl::new("rect").a("id", format!("d{idx}x")).a("xy", format!("{} {}", num(*a), vexpr(3.0))).a("wh", "3 2")));
                         out.push(X::El(XEl::new("rect").a("xy", format!("#d{idx}x|v 1")).a("wh", "1")));
+                    }
+                    5 => {
+                        // an id taken from the accumulator as it stands when the element's turn comes
+                        out.push(X::El(XEl::new("rect").a("id", "k{{abs($acc)}}q").a("xy", format!("{} {}", num(*a), vexpr(3.0))).a("wh", "2 3")));
+                        out.push(X::El(XEl::new("circle").a("cxy", "#k{{abs($acc)}}q@b 0 1").a("r", "1")));
                     }
                     3 => out.push(X::El(XEl::new("text").a("xy", format!("{} {}", num(*a), num(*b))).a("text", format!("v={} acc=$acc", v.as_ref().map(|n| format!("${n}")).unwrap_or("-".into()))))),
                     _ => {
@@ -419,7 +424,7 @@ fn stats(prog: &[N]) -> (usize, bool) {
                 it = it.max(i2);
                 dep |= d2;
             }
-            N::Shape(1, ..) | N::Shape(4, ..) => dep = true,
+            N::Shape(1, ..) | N::Shape(4, ..) | N::Shape(5, ..) => dep = true,
             _ => {}
         }
     }
